@@ -327,18 +327,18 @@ fn note_time(sh: &Shared, class: &str, t0: Instant) {
     e.1 += t0.elapsed().as_secs_f64();
 }
 
-fn z_honest_only(c: &ZCase, k: u32, out: &mut CaseOut) -> Option<vgad::RunOut> {
-    let run = vgad::run_once(c, k, vec![], false);
+fn z_honest(c: &ZCase, k: u32, keep: bool, out: &mut CaseOut) -> (vgad::RunOut, bool) {
+    let run = vgad::run_once(c, k, vec![], keep);
     out.eval(&format!("honest:{}", run.outcome.name()), true);
     let detail = json!({"case": c.key(), "k": k});
-    match &run.outcome {
-        Outcome::Sat => {
-            if let Judgement::Wrong(w) = c.judge(&run.ins, &run.outs) {
+    let ok = match &run.outcome {
+        Outcome::Sat => match c.judge(&run.ins, &run.outs) {
+            Judgement::Holds => true,
+            Judgement::Wrong(w) => {
                 out.viol(Viol::new(format!("{}:honest-result-wrong", c.op()), format!("honest circuit is satisfied but its exposed result contradicts the reference: {w}"), detail));
-                return None;
+                false
             }
-            Some(run)
-        }
+        },
         o => {
             let what = match o {
                 Outcome::Unsat(e) => format!("unsatisfiable: {e}"),
@@ -347,51 +347,87 @@ fn z_honest_only(c: &ZCase, k: u32, out: &mut CaseOut) -> Option<vgad::RunOut> {
                 Outcome::Sat => unreachable!(),
             };
             out.viol(Viol::new(format!("{}:completeness:{}", c.op(), o.name()), format!("honest witness for an admissible input is not accepted — {what}"), detail));
-            None
+            false
         }
-    }
+    };
+    (run, ok)
 }
 
-fn fs_job<C: fs::FsCase>(sh: &Shared, c: &C, full: bool, kclass: String, max_k: u32, out: &mut CaseOut) {
+/// Runs an FS case: k is probed upwards from the class hint until the honest run is accepted;
+/// that run is the one judged. Returns the accepted-and-correct flag.
+fn fs_job<C: fs::FsCase>(sh: &Shared, c: &C, full: bool, all_positions: bool, kclass: String, max_k: u32, out: &mut CaseOut) -> bool {
     let t0 = Instant::now();
-    // k: start from the class hint, go up until the honest run is accepted
     let hint = sh.ks.lock().unwrap().get(&kclass).copied();
     let mut k = hint.unwrap_or(c.k_hint());
-    let mut found = None;
-    while k <= max_k {
-        let r = fs::run_once(c, k, vec![], false);
-        if r.outcome == Outcome::Sat {
-            found = Some(k);
-            break;
+    let mut run = loop {
+        let r = fs::run_once(c, k, vec![], full);
+        if r.outcome == Outcome::Sat || k >= max_k {
+            break r;
         }
         out.count(&format!("k-probe:{}", r.outcome.name()), 1);
         k += 1;
+    };
+    if run.outcome == Outcome::Sat {
+        let mut ks = sh.ks.lock().unwrap();
+        let e = ks.entry(kclass.clone()).or_insert(k);
+        *e = (*e).min(k);
     }
-    let k = match found {
-        Some(k) => {
-            let mut ks = sh.ks.lock().unwrap();
-            let e = ks.entry(kclass.clone()).or_insert(k);
-            *e = (*e).min(k);
-            k
-        }
-        None => max_k,
-    };
-    let (n, unt) = if full {
-        let rep = fs::explore_honest(c, k, out);
-        (rep.n_assign, rep.untamperable)
-    } else {
-        let (run, _) = fs::honest_only(c, k, out);
-        (run.n_assign, run.untamperable)
-    };
+    let ok = fs::honest_verdict(c, k, &run, out);
+    if ok && full {
+        fs::binding_from_run(c, k, &mut run, all_positions, out);
+    }
+    let (n, unt) = (run.n_assign, run.untamperable);
     out.counter("advice_assignments", n);
     out.counter("untamperable_assignments", unt);
-    sh.sizes.lock().unwrap().insert(c.key(), (n, unt, k));
-    out.sample = Some(json!({"case": c.key(), "k": k, "assignments": n, "untamperable": unt, "full": full}));
-    note_time(sh, &format!("{}{}", kclass, if full { "/full" } else { "" }), t0);
+    if ok {
+        sh.sizes.lock().unwrap().insert(c.key(), (n, unt, k));
+    }
+    out.sample = Some(json!({"case": c.key(), "k": k, "assignments": n, "untamperable": unt, "binding_checks": full}));
+    note_time(sh, &format!("{}{}", kclass, if full { "/binding" } else { "" }), t0);
+    ok
 }
 
-fn run_job(sh: &Shared, j: &Job) -> CaseOut {
+/// If a variable-length case with an adversarial filler is accepted with a wrong digest while
+/// the same data with the default zero filler is right, the defect is the filler dependence.
+fn rename_filler_viol<C: fs::FsCase>(sh: &Shared, zero_variant: &C, kclass: String, max_k: u32, out: &mut CaseOut) {
+    let wrong = format!("{}:honest-result-wrong", zero_variant.op());
+    if !out.viols.iter().any(|v| v.finding_key == wrong) {
+        return;
+    }
+    let mut scratch = CaseOut::batch();
+    if fs_job(sh, zero_variant, false, false, kclass, max_k, &mut scratch) {
+        for v in out.viols.iter_mut().filter(|v| v.finding_key == wrong) {
+            v.finding_key = format!("{}:digest-depends-on-unconstrained-filler", zero_variant.op());
+            v.what = format!("the digest of a variable-length input depends on the unconstrained filler of its buffer (the same data with the zero filler gives the reference digest): {}", v.what);
+        }
+        out.count("filler-dependent-digest", 1);
+    }
+}
+
+/// A 1-deviation violation of a variable-length gadget in which the data read back from the
+/// vector is untouched (the fault hit an unconstrained filler cell) is the filler dependence.
+fn rename_filler_fault_viols<C: fs::FsCase>(c: &C, k: u32, data: &[F], faults: &[(&'static str, midnight_proofs::verif::Fault)], out: &mut CaseOut) {
+    let wrong = format!("{}:unsound-under-1-deviation", c.op());
+    for v in out.viols.iter_mut().filter(|v| v.finding_key == wrong) {
+        let (Some(idx), Some(fname)) = (v.detail["assignment_index"].as_u64(), v.detail["fault"].as_str()) else { continue };
+        let Some((_, fault)) = faults.iter().find(|(n, _)| *n == fname) else { continue };
+        let run = fs::run_once(c, k, vec![(idx, fault.clone(), midnight_proofs::verif::Mode::Propagate)], false);
+        if run.outcome == Outcome::Sat && run.ins.len() == 1 && run.ins[0] == data {
+            v.finding_key = format!("{}:digest-depends-on-unconstrained-filler", c.op());
+            v.what = format!("a prover-chosen value in an unused (filler) cell of the buffer changes the digest of unchanged data: {}", v.what);
+        }
+    }
+}
+
+fn run_job(sh: &Shared, j: &Job, all_positions: bool) -> CaseOut {
     let mut out = CaseOut::batch();
+    let op = match j {
+        Job::Z(c) | Job::ZFull(c) => c.op(),
+        Job::Rip(c, _) => fs::FsCase::op(c),
+        Job::ShaVar(c, _) => fs::FsCase::op(c),
+        Job::PosVar(c, _) => fs::FsCase::op(c),
+        Job::Sponge(c, _) => fs::FsCase::op(c),
+    };
     match j {
         Job::Z(c) | Job::ZFull(c) => {
             let t0 = Instant::now();
@@ -404,29 +440,67 @@ fn run_job(sh: &Shared, j: &Job) -> CaseOut {
                     return out;
                 }
             };
-            let (n, unt) = if full {
-                let rep = vgad::explore_honest(c, k, &mut out);
-                (rep.n_assign, rep.untamperable)
-            } else {
-                match z_honest_only(c, k, &mut out) {
-                    Some(r) => (r.n_assign, r.untamperable),
-                    None => (0, 0),
+            let (mut run, ok) = z_honest(c, k, full, &mut out);
+            if ok && full {
+                if let Some(mut prover) = run.prover.take() {
+                    let small = matches!(c.input, ZIn::Poseidon(..));
+                    let positions = fs::pick_positions(run.flat.len(), run.ins.len(), all_positions || small);
+                    let key = c.key();
+                    fs::binding_checks(
+                        &mut prover,
+                        &run.flat,
+                        &positions,
+                        &|f| {
+                            let (i, o) = run.unflatten(f);
+                            c.judge(&i, &o)
+                        },
+                        &c.op(),
+                        &|| json!({"case": key, "k": k}),
+                        &mut out,
+                    );
                 }
-            };
+            }
+            let (n, unt) = (run.n_assign, run.untamperable);
             out.counter("advice_assignments", n);
             out.counter("untamperable_assignments", unt);
-            sh.sizes.lock().unwrap().insert(c.key(), (n, unt, k));
-            out.sample = Some(json!({"case": c.key(), "k": k, "assignments": n, "untamperable": unt, "full": full}));
+            if ok {
+                sh.sizes.lock().unwrap().insert(c.key(), (n, unt, k));
+            }
+            out.sample = Some(json!({"case": c.key(), "k": k, "assignments": n, "untamperable": unt, "binding_checks": full}));
             let blocks = match &c.input {
                 ZIn::Bytes(h, m) => m.len() / h.block(),
                 ZIn::Poseidon(x, _) => x.len(),
             };
-            note_time(sh, &format!("{}/b{}/k{}{}", c.op(), blocks, k, if full { "/full" } else { "" }), t0);
+            note_time(sh, &format!("{}/b{}/k{}{}", c.op(), blocks, k, if full { "/binding" } else { "" }), t0);
         }
-        Job::Rip(c, full) => fs_job(sh, c, *full, format!("ripemd160/b{}", (c.msg.len() + 8) / 64), 17, &mut out),
-        Job::ShaVar(c, full) => fs_job(sh, c, *full, format!("sha256_varlen/max{}/{}", c.max, c.filler.name()), 18, &mut out),
-        Job::PosVar(c, full) => fs_job(sh, c, *full, format!("poseidon_varlen/max{}/{}", c.max, c.filler.name()), 14, &mut out),
-        Job::Sponge(c, full) => fs_job(sh, c, *full, format!("poseidon_sponge/{}", c.shape()), 12, &mut out),
+        Job::Rip(c, full) => {
+            fs_job(sh, c, *full, all_positions, format!("ripemd160/b{}", (c.msg.len() + 8) / 64), 17, &mut out);
+        }
+        Job::ShaVar(c, full) => {
+            let kc = |f: Filler| format!("sha256_varlen/max{}/{}", c.max, if matches!(f, Filler::Zero | Filler::Max) { "plain" } else { "trimmed" });
+            fs_job(sh, c, *full, all_positions, kc(c.filler), 18, &mut out);
+            if c.filler != Filler::Zero {
+                let mut z = c.clone();
+                z.filler = Filler::Zero;
+                rename_filler_viol(sh, &z, kc(Filler::Zero), 18, &mut out);
+            }
+        }
+        Job::PosVar(c, full) => {
+            let kc = |f: Filler| format!("poseidon_varlen/max{}/{}", c.max, if matches!(f, Filler::Zero | Filler::Max) { "plain" } else { "trimmed" });
+            fs_job(sh, c, *full, true, kc(c.filler), 14, &mut out);
+            if c.filler != Filler::Zero {
+                let mut z = c.clone();
+                z.filler = Filler::Zero;
+                rename_filler_viol(sh, &z, kc(Filler::Zero), 14, &mut out);
+            }
+        }
+        Job::Sponge(c, full) => {
+            fs_job(sh, c, *full, true, format!("poseidon_sponge/{}", c.shape()), 12, &mut out);
+        }
+    }
+    // one merged group: outcome classes are prefixed by the entry point
+    for c in out.classes.iter_mut() {
+        c.0 = format!("{op}/{}", c.0);
     }
     out
 }
@@ -434,11 +508,11 @@ fn run_job(sh: &Shared, j: &Job) -> CaseOut {
 fn job_key(j: &Job) -> String {
     match j {
         Job::Z(c) => c.key(),
-        Job::ZFull(c) => format!("{}/full", c.key()),
-        Job::Rip(c, f) => format!("{}{}", fs::FsCase::key(c), if *f { "/full" } else { "" }),
-        Job::ShaVar(c, f) => format!("{}{}", fs::FsCase::key(c), if *f { "/full" } else { "" }),
-        Job::PosVar(c, f) => format!("{}{}", fs::FsCase::key(c), if *f { "/full" } else { "" }),
-        Job::Sponge(c, f) => format!("{}{}", fs::FsCase::key(c), if *f { "/full" } else { "" }),
+        Job::ZFull(c) => format!("{}/binding", c.key()),
+        Job::Rip(c, f) => format!("{}{}", fs::FsCase::key(c), if *f { "/binding" } else { "" }),
+        Job::ShaVar(c, f) => format!("{}{}", fs::FsCase::key(c), if *f { "/binding" } else { "" }),
+        Job::PosVar(c, f) => format!("{}{}", fs::FsCase::key(c), if *f { "/binding" } else { "" }),
+        Job::Sponge(c, f) => format!("{}{}", fs::FsCase::key(c), if *f { "/binding" } else { "" }),
     }
 }
 
@@ -446,7 +520,15 @@ fn job_key(j: &Job) -> String {
 fn job_weight(j: &Job) -> u64 {
     match j {
         Job::Z(c) => match &c.input {
-            ZIn::Bytes(h, m) => (1 + m.len() / h.block()) as u64 * if matches!(h, ByteHash::Sha3_256 | ByteHash::Keccak256) { 8 } else { 2 },
+            ZIn::Bytes(h, m) => {
+                (1 + m.len() / h.block()) as u64
+                    * match h {
+                        ByteHash::Sha3_256 | ByteHash::Keccak256 => 8,
+                        ByteHash::Blake2b256 | ByteHash::Blake2b512 => 12,
+                        ByteHash::Sha512 => 4,
+                        _ => 2,
+                    }
+            }
             ZIn::Poseidon(..) => 0,
         },
         Job::ZFull(c) => match &c.input {
@@ -499,6 +581,7 @@ fn main() {
              using the same published constants. The plain model follows the implementation's documented convention.",
         );
     }
+    cx.note("the Poseidon digest of the empty input in fixed-length mode is 0 (capacity word 0, no chunk, no permutation) in HashCPU, in the chip and in the model");
     cx.note(format!(
         "round-skip counts as compiled: NB_SKIPS_CIRCUIT = 5 (12 batched partial-round rows), NB_SKIPS_CPU = 2; rate {} width {} rounds {}+{}",
         PoseidonChip::<F>::rate(),
@@ -794,10 +877,14 @@ fn main() {
         jobs.push(("sha256_varlen".into(), v));
     }
 
-    for (group, mut js) in jobs {
-        js.sort_by_key(|j| std::cmp::Reverse(job_weight(j)));
-        let cases: Vec<(String, Job)> = js.into_iter().map(|j| (job_key(&j), j)).collect();
-        cx.run_cases(&group, &cases, |j| run_job(&sh, j));
+    {
+        let mut all: Vec<Job> = jobs.into_iter().flat_map(|(_, js)| js).collect();
+        // the small Poseidon circuits first (seconds in total), then longest first, so that the
+        // big circuits do not form a tail
+        let small = |j: &Job| matches!(j, Job::PosVar(..) | Job::Sponge(..)) || matches!(j, Job::ZFull(ZCase { input: ZIn::Poseidon(..), .. }));
+        all.sort_by_key(|j| (!small(j), std::cmp::Reverse(job_weight(j))));
+        let cases: Vec<(String, Job)> = all.into_iter().map(|j| (job_key(&j), j)).collect();
+        cx.run_cases("circuits", &cases, |j| run_job(&sh, j, thorough));
     }
 
     // ---- phase D: 1-deviation faults
@@ -815,11 +902,13 @@ fn main() {
     }
     let mut fjobs: Vec<(String, FJob)> = vec![];
     let mut stride_notes: Vec<String> = vec![];
-    let mut add = |key: String, size: Option<(u64, u64, u32)>, stride: u64, chunk: usize, all: bool, mk: &dyn Fn(u32, Vec<u64>, bool) -> FJob| {
+    // `target` = largest number of assignment indices to explore (the stride is derived from it)
+    let mut add = |key: String, size: Option<(u64, u64, u32)>, target: u64, chunk: usize, all: bool, mk: &dyn Fn(u32, Vec<u64>, bool) -> FJob| {
         let Some((n, unt, k)) = size else {
             stride_notes.push(format!("{key}: no accepted honest run available, fault exploration skipped"));
             return;
         };
+        let stride = ((n + target - 1) / target.max(1)).max(1);
         let r = stride / 2;
         let idxs: Vec<u64> = (0..n).filter(|i| i % stride == r).collect();
         stride_notes.push(format!(
@@ -848,10 +937,10 @@ fn main() {
             input: ZIn::Poseidon(vec![F::random(&mut rng), F::random(&mut rng)], params.clone()),
             content: "fault-seeded".into(),
         };
-        add(c.key(), vcore::in_pool(1, || measure_z(&c)), 1, 8, true, &|k, i, a| FJob::Z(c.clone(), k, i, a));
+        add(c.key(), vcore::in_pool(1, || measure_z(&c)), u64::MAX / 2, 8, true, &|k, i, a| FJob::Z(c.clone(), k, i, a));
         // SHA-256, one block
         let c = zbytes(ByteHash::Sha256, 3, "counter");
-        add(c.key(), sizes.get(&c.key()).copied(), tier.pick(29, 1), 6, thorough, &|k, i, a| FJob::Z(c.clone(), k, i, a));
+        add(c.key(), sizes.get(&c.key()).copied(), tier.pick(400, u64::MAX / 2), 6, thorough, &|k, i, a| FJob::Z(c.clone(), k, i, a));
         // variable-length Poseidon, odd length (the last chunk has a filler slot)
         let c = PoseidonVarCase {
             max: 8,
@@ -861,7 +950,7 @@ fn main() {
             seed,
             params: params.clone(),
         };
-        add(fs::FsCase::key(&c), vcore::in_pool(1, || measure_fs(&c, 14)), tier.pick(3, 1), 16, thorough, &|k, i, a| FJob::PosVar(c.clone(), k, i, a));
+        add(fs::FsCase::key(&c), vcore::in_pool(1, || measure_fs(&c, 14)), tier.pick(250, u64::MAX / 2), 16, thorough, &|k, i, a| FJob::PosVar(c.clone(), k, i, a));
         // sponge: absorb, squeeze twice, absorb, squeeze
         let c = SpongeCase {
             input_len: None,
@@ -869,18 +958,18 @@ fn main() {
             content: "fault-seeded".into(),
             params: params.clone(),
         };
-        add(fs::FsCase::key(&c), vcore::in_pool(1, || measure_fs(&c, 12)), 1, 16, thorough, &|k, i, a| FJob::Sponge(c.clone(), k, i, a));
+        add(fs::FsCase::key(&c), vcore::in_pool(1, || measure_fs(&c, 12)), u64::MAX / 2, 16, thorough, &|k, i, a| FJob::Sponge(c.clone(), k, i, a));
     }
     if thorough {
-        for (h, stride) in [(ByteHash::Sha512, 97u64), (ByteHash::Sha3_256, 211), (ByteHash::Keccak256, 211), (ByteHash::Blake2b256, 211), (ByteHash::Blake2b512, 211)] {
+        for (h, target) in [(ByteHash::Sha512, 600u64), (ByteHash::Sha3_256, 300), (ByteHash::Keccak256, 300), (ByteHash::Blake2b256, 100), (ByteHash::Blake2b512, 100)] {
             let c = zbytes(h, 1, "seeded");
-            add(c.key(), sizes.get(&c.key()).copied(), stride, 4, false, &|k, i, a| FJob::Z(c.clone(), k, i, a));
+            add(c.key(), sizes.get(&c.key()).copied(), target, 4, false, &|k, i, a| FJob::Z(c.clone(), k, i, a));
         }
         let c = RipemdCase {
             msg: content("seeded", 1, seed, "ripemd160"),
             content: "seeded".into(),
         };
-        add(fs::FsCase::key(&c), sizes.get(&fs::FsCase::key(&c)).copied(), 53, 4, false, &|k, i, a| FJob::Rip(c.clone(), k, i, a));
+        add(fs::FsCase::key(&c), sizes.get(&fs::FsCase::key(&c)).copied(), 600, 4, false, &|k, i, a| FJob::Rip(c.clone(), k, i, a));
         let c = ShaVarCase {
             max: 64,
             data: content("counter", 3, seed, "shavar"),
@@ -888,7 +977,7 @@ fn main() {
             filler: Filler::Seeded,
             seed,
         };
-        add(fs::FsCase::key(&c), sizes.get(&fs::FsCase::key(&c)).copied(), 101, 4, false, &|k, i, a| FJob::ShaVar(c.clone(), k, i, a));
+        add(fs::FsCase::key(&c), sizes.get(&fs::FsCase::key(&c)).copied(), 300, 4, false, &|k, i, a| FJob::ShaVar(c.clone(), k, i, a));
     }
     drop(add);
     for n in &stride_notes {
@@ -897,12 +986,33 @@ fn main() {
     let pick = |all: &bool| if *all { &all_faults } else { &quick_faults };
     cx.run_cases("faults", &fjobs, |j| {
         let mut out = CaseOut::batch();
-        match j {
-            FJob::Z(c, k, idxs, all) => vgad::explore_faults(c, *k, idxs, pick(all), &mut out),
-            FJob::PosVar(c, k, idxs, all) => fs::explore_faults(c, *k, idxs, pick(all), &mut out),
-            FJob::Sponge(c, k, idxs, all) => fs::explore_faults(c, *k, idxs, pick(all), &mut out),
-            FJob::ShaVar(c, k, idxs, all) => fs::explore_faults(c, *k, idxs, pick(all), &mut out),
-            FJob::Rip(c, k, idxs, all) => fs::explore_faults(c, *k, idxs, pick(all), &mut out),
+        let op = match j {
+            FJob::Z(c, k, idxs, all) => {
+                vgad::explore_faults(c, *k, idxs, pick(all), &mut out);
+                c.op()
+            }
+            FJob::PosVar(c, k, idxs, all) => {
+                fs::explore_faults(c, *k, idxs, pick(all), &mut out);
+                rename_filler_fault_viols(c, *k, &c.data, &all_faults, &mut out);
+                fs::FsCase::op(c)
+            }
+            FJob::Sponge(c, k, idxs, all) => {
+                fs::explore_faults(c, *k, idxs, pick(all), &mut out);
+                fs::FsCase::op(c)
+            }
+            FJob::ShaVar(c, k, idxs, all) => {
+                fs::explore_faults(c, *k, idxs, pick(all), &mut out);
+                let data: Vec<F> = c.data.iter().map(|b| F::from(*b as u64)).collect();
+                rename_filler_fault_viols(c, *k, &data, &all_faults, &mut out);
+                fs::FsCase::op(c)
+            }
+            FJob::Rip(c, k, idxs, all) => {
+                fs::explore_faults(c, *k, idxs, pick(all), &mut out);
+                fs::FsCase::op(c)
+            }
+        };
+        for c in out.classes.iter_mut() {
+            c.0 = format!("{op}/{}", c.0);
         }
         out
     });
@@ -919,10 +1029,10 @@ fn main() {
 
     // ---- anti-vacuity
     for g in ["sha2_256", "ripemd160", "sha2_512", "sha3_256", "keccak_256", "blake2b_256", "blake2b_512", "poseidon", "poseidon_sponge", "poseidon_varlen", "sha256_varlen"] {
-        let sat = cx.class_count(&format!("{g}:honest:sat"));
+        let sat = cx.class_count(&format!("circuits:{g}/honest:sat"));
         cx.require(sat > 0 || cx.remaining_s() <= 0.0, &format!("group {g} has at least one accepted honest run"));
     }
-    cx.require(cx.class_count("faults:fault:unsat") > 100 || cx.remaining_s() <= 0.0, "faults must be rejected somewhere");
+    cx.require(["poseidon", "sha2_256", "poseidon_varlen", "poseidon_sponge"].iter().all(|g| cx.class_count(&format!("faults:{g}/fault:unsat")) > 100) || cx.remaining_s() <= 0.0, "faults must be rejected in every fault-explored chip");
     cx.require(cx.class_count("poseidon-cpu:sponge-cpu:equal") + cx.class_count("poseidon-cpu:sponge-cpu:differs") > 500, "the off-circuit grid was evaluated");
     cx.finish()
 }
